@@ -1630,6 +1630,30 @@ fn cmd_files(args: &[String]) {
     println!("{}", json!({"cases": ncases, "writes": nwrites, "events": nevents, "classes": classes, "tlc_tail": tlc_tail}));
 }
 
+
+/// stdin: NDJSON events (or bare acts) of the file level; re-executes each act, prints the events with fresh `out`.
+fn cmd_refile() {
+    let stdin = io::stdin();
+    for line in stdin.lock().lines() {
+        let line = match line { Ok(l) => l, Err(_) => break };
+        if line.trim().is_empty() {
+            continue;
+        }
+        let v: Value = serde_json::from_str(&line).expect("event json");
+        let a = if v.get("act").is_some() { v["act"].clone() } else { v };
+        vh_common::set_case(&a["id"].to_string());
+        vh_common::arm(120_000);
+        let o = if a["a"] == "write" {
+            let cs: Vec<Value> = a["cs"].as_array().cloned().unwrap_or_default();
+            write_file(&a["H"], &cs, a["via"] == "chunk", a["src"].as_u64().unwrap_or(0))
+        } else {
+            read_file(&bytes_of(&a["bytes"]), a["src"]["pol"].as_u64().unwrap_or(0), a["src"]["p"].as_u64().unwrap_or(0))
+        };
+        vh_common::disarm();
+        println!("{}", json!({"act": a, "out": o}));
+    }
+}
+
 // ------------------------------------------------------------------ run / drive
 
 fn print_events(plan: &[Value], outs: &[Value]) {
@@ -1764,6 +1788,7 @@ fn main() {
         Some("drive") => cmd_drive(&lvl, &args[3..]),
         Some("lib") => cmd_lib(),
         Some("files") => cmd_files(&args[2..]),
+        Some("refile") => cmd_refile(),
         _ => {
             eprintln!("usage: vh-demo classes|graph|run|drive ...");
             std::process::exit(2);
